@@ -7,6 +7,7 @@ import (
 	"io"
 	"path/filepath"
 	"reflect"
+	"sort"
 	"strconv"
 	"strings"
 )
@@ -859,14 +860,25 @@ func (n *IncludeNode) Render(w io.Writer, ctx *RenderContext) error {
 		}
 	}
 
-	// Pre-evaluate all variables before setting them
+	// Pre-evaluate all variables before setting any of them: without `only` the include
+	// context is the current context, so setting while evaluating made one entry of the
+	// `with` hash see (or not see) another depending on Go's map iteration order
 	if len(n.variables) > 0 {
-		for name, valueNode := range n.variables {
-			value, err := ctx.EvaluateExpression(valueNode)
+		names := make([]string, 0, len(n.variables))
+		for name := range n.variables {
+			names = append(names, name)
+		}
+		sort.Strings(names)
+		values := make([]interface{}, len(names))
+		for i, name := range names {
+			value, err := ctx.EvaluateExpression(n.variables[name])
 			if err != nil {
 				return err
 			}
-			includeCtx.SetVariable(name, value)
+			values[i] = value
+		}
+		for i, name := range names {
+			includeCtx.SetVariable(name, values[i])
 		}
 	}
 
